@@ -240,7 +240,6 @@ REG.bounded_check("bounded#receiver_gets_exactly_the_denoted_arguments", P, _bou
 ASSUMES = ["A-PY", "A-INST", "A-DJ"]
 NOT_COVERED = [
     "parse_tag's own functional correctness is only bounded (see coverage.bounded)",
-    "resolve_params (top-level spreads), merge_repeated_kwargs, process_aggregate_kwargs, _extract_flags are not yet under contract",
     "den() of an atom is stock Django's FilterExpression (that IS the property's meaning of an atom)",
 ]
 
@@ -249,3 +248,5 @@ import contracts.c13b  # noqa: E402,F401  (merge_repeated_kwargs: repeated kwarg
 import contracts.c02b  # noqa: E402,F401  (_extract_flags)
 
 import contracts.c02c  # noqa: E402,F401  (process_aggregate_kwargs)
+
+import contracts.c02d  # noqa: E402,F401  (resolve_params: top-level spreads)
